@@ -30,6 +30,7 @@ type RdbReplay struct {
 	// key-exists policy "ignore" on the expanded path: the key whose value is being
 	// skipped, so that the remaining chunks of a split value are skipped as well
 	skippedKey []byte
+	skipping   bool // skippedKey is set (the empty string is a key too)
 }
 
 func (rr *RdbReplay) Replay(e *rdb.BinEntry) (err error) {
@@ -66,12 +67,12 @@ func (rr *RdbReplay) Replay(e *rdb.BinEntry) (err error) {
 			return fmt.Errorf("rdb module object requires RESTORE replay for key %s", e.Key)
 		}
 		if !e.FirstBin() {
-			if rr.skippedKey != nil && bytes.Equal(rr.skippedKey, e.Key) {
+			if rr.skipping && bytes.Equal(rr.skippedKey, e.Key) {
 				// the first chunk found the key on the target and the policy is "ignore"
 				return nil
 			}
 		} else {
-			rr.skippedKey = nil
+			rr.skipping = false
 			exist, err := common.Bool(rr.Client.Do("exists", e.Key))
 			if err != nil {
 				return err
@@ -93,6 +94,7 @@ func (rr *RdbReplay) Replay(e *rdb.BinEntry) (err error) {
 					// keep the existing key untouched: nothing of the snapshot value may be
 					// merged into it, neither from this chunk nor from the following ones
 					rr.skippedKey = append([]byte(nil), e.Key...)
+					rr.skipping = true
 					return nil
 				case "error":
 					return fmt.Errorf("output key exist : %s", e.Key)
